@@ -48,7 +48,7 @@ type recNotifier struct {
 }
 
 func (r *recNotifier) UpdatePeerHeights(*chainhash.Hash, int32, *peer.Peer) {}
-func (r *recNotifier) RelayInventory(*wire.InvVect, interface{})           {}
+func (r *recNotifier) RelayInventory(*wire.InvVect, interface{})            {}
 func (r *recNotifier) BanPeer(p *peer.Peer) {
 	r.mu.Lock()
 	r.banned = append(r.banned, p.ID())
@@ -75,6 +75,8 @@ type evRec struct {
 	Step     string
 	ModelOp  string
 	Observed string
+	NodeOp   string // M-Node cross-check: the request as the Lean node sees it …
+	NodeWant string // … and what the scripted Go node answered (display hashes)
 }
 
 type rig struct {
@@ -679,11 +681,35 @@ func (r *rig) stepServe(i int) (bool, error) {
 	if !ok {
 		return false, nil
 	}
+	nodeOp := ""
+	if len(n.spec.Path) <= 200 {
+		loc := make([]string, len(req.Loc))
+		for k, l := range req.Loc {
+			loc[k] = display(l)
+		}
+		locs := "-"
+		if len(loc) > 0 {
+			locs = strings.Join(loc, ",")
+		}
+		n.mu.Lock()
+		pos := n.pos
+		n.mu.Unlock()
+		nodeOp = fmt.Sprintf("node reply %d %d %s %s : %s", n.spec.Cap, pos, r.hashName(req.Stop), locs, idxList(n.spec.Path))
+	}
 	what, idxs := n.answer(req)
 	switch what {
 	case "headers":
 		if err := r.record(fmt.Sprintf("serve %d -> headers %s", i, compactInts(idxs)), fmt.Sprintf("%s headers CHOICE %d %s", r.prefix(), i, idxList(idxs))); err != nil {
 			return true, err
+		}
+		if nodeOp != "" {
+			hs := make([]string, len(idxs))
+			for k, ix := range idxs {
+				hs[k] = r.tree.disp[ix]
+			}
+			// record appended exactly one event (the (done …) events come later, from pendingDone)
+			r.events[len(r.events)-1].NodeOp = nodeOp
+			r.events[len(r.events)-1].NodeWant = strings.Join(hs, ",")
 		}
 	case "close":
 		if err := r.record(fmt.Sprintf("serve %d -> close", i), ""); err != nil {
